@@ -432,7 +432,7 @@ def confirm(chk, findings):
                 else:
                     chk.inconclusive.append('witness for `%s` did not reproduce natively (%s)' % (name, rows))
                 continue
-            if kind == 'cap':
+            if kind in ('cap', 'cap0'):
                 c = mdl.eval(info[1], model_completion=True).as_long()
                 if c > (1 << 22):
                     # look for a small witness of the same obligation: replaying 2^40 entries is not possible
